@@ -1,5 +1,6 @@
 (* C08 — Truncated or failing input never fabricates data. *)
-From VF Require Import Model.Reader Proofs.ReaderProps Gen.GeneratedOk.
+From VF Require Import Model.Reader Model.Compiler Proofs.ReaderProps Gen.GeneratedOk.
+From VF Require Proofs.CompilerProps Proofs.CompiledRoundTrip.
 Open Scope string_scope. Open Scope list_scope. Open Scope Z_scope.
 
 (* For every type without unions and to-end-of-stream arrays (`simple`), every configuration, every input and every cut point k:
@@ -20,6 +21,15 @@ Proof. exact read_ty_mono. Qed.
 Theorem short_read_is_eof : forall s pos n, 0 <= n <= 9223372036854775807 -> zlen (srest s pos) < n -> sread_exact s pos n = Err EEof.
 Proof. exact short_read_eof. Qed.
 
+(* the COMPILED reader (C03's theorem composed with extension_stable): a value the generated statements return from a stream is the value they
+   return from every extension of it - cutting the input can make the compiled reader fail, never return something else *)
+Theorem compiled_reader_extension_stable : forall c fuel nm fs p,
+  Forall (fun f => f_off f = None /\ CompilerProps.cls' c fuel f) fs -> NoDup (map f_name fs) -> CompilerProps.bsize c fs <= 9223372036854775807 -> compile_plan c false fs = Ok p ->
+  simple (TStruct nm fs false) = true ->
+  forall s1 s2 pos r, 0 <= pos -> read_compiled c fuel false fs s1 pos = Ok r -> read_compiled c fuel false fs (s1 ++ s2) pos = Ok r.
+Proof. exact CompiledRoundTrip.compiled_extension_stable. Qed.
+
+Print Assumptions compiled_reader_extension_stable.
 Print Assumptions prefix_stable.
 Print Assumptions extension_stable.
 Print Assumptions fuel_irrelevant.
